@@ -21,7 +21,9 @@ CLAIMED = {
         text="Machine-checked refinement theorem (Properties/C06.v): for every key type, every built-in store in every configuration, every oracle stream and "
              "every get/set-if-absent/CAS sequence with non-decreasing times, results equal those of an abstract map with per-entry expiry and cleanup is invisible. "
              "The executable store models are compared step by step (return value, physical entry count, scheduling snapshot through hook H1) with the real stores on every run.",
-        note=COMMON_NOTE + "Axioms: none (closed under the global context). HashMap is trusted to be a finite map; AdaptiveStore's capacity-based pressure trigger is an oracle input.",
+        note=COMMON_NOTE + "Axioms: none (closed under the global context). HashMap is trusted to be a finite map; AdaptiveStore's capacity-based pressure trigger is an oracle input. "
+             "T1b: get / set_if_not_exists / compare_and_swap, the retain predicate and PeriodicStore's trigger are re-translated from the store sources on every run and proved equal to the "
+             "model's entry-level functions (Store/GenStoreTie.v, outside the closure of Properties/C06.vo; status in coverage.source_tie_stores).",
         technique="Coq refinement proof (concrete stores -> abstract expiring map) + differential correspondence with state snapshots",
         ref="DESIGN.md §5 C06"),
 }
@@ -30,7 +32,9 @@ LIM_NOTE = COMMON_NOTE + ("Axioms: none for the theorems (closed under the globa
     "the Flocq model of C18 is plugged in only for execution in the correspondence. HashMap trusted as a finite map; pre-1970 timestamps outside the model. "
     "T1b: the arithmetic of rate_limit (guards, every let of the loop body, the arguments of both store writes, the four response fields) is re-translated from the current "
     "source by tools/extract_limiter.py on every run and proved equal to the hand model for every input (Limiter/GenTie.v, axiom-free; outside the closure of Properties/*.vo, "
-    "status recorded in the evidence under coverage.source_tie); the translator (a recursive-descent parser for the expression subset) is trusted.")
+    "status recorded in the evidence under coverage.source_tie); likewise Rate::from_count_and_period (Float/RateTie.v) and the three trait methods, the retain predicate and "
+    "PeriodicStore's trigger of every built-in store (tools/extract_stores.py, Store/GenStoreTie.v: 15 theorems, coverage.source_tie_stores). The translators (recursive-descent "
+    "parsers for the expression subset; fall back to the pinned text of the last verified tree, and say so, on anything else) are trusted.")
 CLAIMED.update({
     "C01": dict(
         text="Machine-checked theorem (Properties/C01.v): for every key type, store, configuration, oracle stream and multi-key history with non-decreasing timestamps in which a key is "
@@ -101,7 +105,9 @@ CLAIMED.update({
         text="Machine-checked theorems (Properties/C15.v): an interleaving LTS of recorder threads (each operation = three atomic increments in the program order of metrics.rs); for any number of "
              "threads, programs and interleavings, at every quiescent state total = http+grpc+redis = allowed+denied+errors and each counter equals the events performed; counters are monotone; "
              "on RESP a command is counted as denied exactly when the reply sent is a denial decision (command-handler model); the HTTP and gRPC handlers' recorder calls (re-extracted from the sources) record the limiter's own flag / an error. Real Metrics exercised with 2..64 OS threads, over TCP, and by scraping /metrics of the real server at every quiescent point of mixed-protocol sessions.",
-        note=RESP_NOTE + " Atomicity of fetch_add and the happens-before edge at a quiescent point are modelled, not verified.",
+        note=RESP_NOTE + " Atomicity of fetch_add and the happens-before edge at a quiescent point are modelled, not verified; that every update of an atomic in metrics.rs IS a "
+             "fetch_add(1) - the premise under which the interleaving model applies - is re-extracted from the source on every run (T1 table METRICS_ATOMIC_OPS) and is a theorem "
+             "(C15_counters_only_incremented_atomically).",
         technique="Coq proof (invariant over an interleaving transition system; case analysis of the command handler) + multi-threaded and TCP differential correspondence", ref="DESIGN.md §5 C15"),
     "C16": dict(
         text="Machine-checked theorems (Properties/C16.v): for the relational model of TopDeniedKeys (every eviction survivor choice, every tie order): report shape, never overstates, exact while few, "
